@@ -819,7 +819,10 @@ var spec = run.Spec[Case]{ID: "C11", Name: "locate", Gen: genCase, Prop: prop, C
 
 func TestPropLocate(t *testing.T) { run.Generated(t, spec) }
 func TestRegress(t *testing.T)    { run.Regress(t, spec) }
-func TestReplay(t *testing.T)     { run.ReplayOne(t, spec) }
+func TestReplay(t *testing.T) {
+	run.ReplayOne(t, spec)
+	run.ReplayOne(t, combSpec)
+}
 
 // TestExhaustive4x4 enumerates every closed ring of 3 and 4 vertices on the
 // 4x4 grid against every query point of the grid (1 114 112 cases).
